@@ -60,6 +60,23 @@ def jsonable(o: Any, depth: int = 0) -> Any:
     return repr(o)[:300]
 
 
+def _shrink(o: Any, depth: int = 0) -> Any:
+    if isinstance(o, str):
+        return o if len(o) <= 160 else o[:160] + f"...(+{len(o) - 160} chars)"
+    if isinstance(o, list):
+        out = [_shrink(v, depth + 1) for v in o[:6]]
+        if len(o) > 6:
+            out.append(f"...(+{len(o) - 6} items)")
+        return out
+    if isinstance(o, dict):
+        items = list(o.items())
+        out = {k: _shrink(v, depth + 1) for k, v in items[:14]}
+        if len(items) > 14:
+            out["..."] = f"+{len(items) - 14} keys"
+        return out
+    return o
+
+
 def unjson(o: Any) -> Any:
     """Inverse of jsonable for the float / bytes markers (used by replays)."""
     if isinstance(o, dict):
@@ -125,6 +142,11 @@ class Session:
             self.nontrivial.add(key if isinstance(key, str) and len(key) <= 16 else chash(key))
         if sample is not None and len(self.samples) < MAX_SAMPLES:
             self.samples.append(jsonable(sample))
+
+    def sample(self, obj: Any) -> None:
+        """Keep a few actual cases (shrunk for readability) for the evidence file."""
+        if len(self.samples) < MAX_SAMPLES:
+            self.samples.append(_shrink(jsonable(obj)))
 
     def count(self, name: str, n: int = 1) -> None:
         self.counters[name] = self.counters.get(name, 0) + int(n)
